@@ -4,7 +4,7 @@
    Cao.C15Proofs, over the VM model Cao.Vm. *)
 From Coq Require Import List NArith ZArith.
 From Cao Require Import ListUtil Bits CardAst Bytecode Compiler Wellformed CompilerProofs CompilerTrace.
-From Cao Require CardEdit Vm C15Link C15Proofs.
+From Cao Require CardEdit Vm C15Link C15Proofs C15Check CompilerOwner CompilerOwnerProg C15Resolve C15Examples.
 Import ListNotations.
 
 (* emit_index_sound, per function: while the cards of a function are compiled (process_cards, i.e. the
@@ -162,3 +162,145 @@ Proof.
   split; [exact Hns|exact Hres].
 Qed.
 Print Assumptions C15_error_head_resolves.
+
+(* ------------------------------------------------------------------ which card an entry names *)
+
+(* card_owns_its_instructions (CompilerOwner.JB, read for one card): in a successful run of process_card on a card
+   c of a function (at the index idx that designates it), from a state whose byte count is exact, every
+   instruction pushed (address a, recorded location l) lies in the byte range of the run and is attributed: the
+   INNERMOST process_card run r that contains a - c itself or a card below it, each such run being a real
+   execution of process_card on that card at the index that designates it (run_ok) - has l = the index of r's
+   card, or (finding N-C15-4) r's card is While / IfTrue / IfFalse / IfElse and l is the index of its child 1
+   (own_loc); a CallFunction instruction is the own instruction of a Call / DynamicCall card and carries exactly
+   that card's index. The list of runs is a ghost of the proof: it is existentially quantified, anchored to
+   executions by run_ok, and its ranges are nested or disjoint by construction.
+   Guard: the buffer stays below 2^32 bytes (push_instruction records `len as u32`). *)
+Theorem C15_card_owns_its_instructions :
+  forall (cards : list card) (c : card) (idx : list N) (ctx : list card) (s s' : cstate),
+    cs_idx s = idx -> at_ctx cards idx (c :: ctx) -> cs_pc s = CompilerWf.bytes (cs_code s) ->
+    process_card c s = ROk tt s' -> (cs_pc s' <= Bits.two32)%N ->
+    exists (newx : list CompilerOwner.xentry) (runs : list CompilerOwner.run),
+      cs_trace s' = map fst newx ++ cs_trace s /\
+      CompilerOwner.addrs (cs_code s') (cs_pc s') =
+        map CompilerOwner.xaddr newx ++ CompilerOwner.addrs (cs_code s) (cs_pc s) /\
+      CompilerOwner.runs_in cards (cs_ns s) (cs_fn s) (cs_pc s) (cs_pc s') runs /\
+      Forall (CompilerOwner.attr runs [] (cs_ns s) (cs_fn s) (cs_pc s) (cs_pc s')) newx.
+Proof.
+  intros cards c idx ctx s s' Hi Hat Hpc Hrun Hg.
+  pose proof (CompilerOwner.process_card_jb cards c idx ctx [] s Hi Hat Hpc) as H. rewrite Hrun in H.
+  destruct H as (_ & _ & _ & _ & _ & _ & H). exact (H Hg).
+Qed.
+Print Assumptions C15_card_owns_its_instructions.
+
+(* ir_stream_in_tree (the lifting from one function to the module tree): every function of the IR stream of
+   `compile M` is a function of M's tree with `std` injected: its namespace designates a submodule (module_at,
+   first name match, the resolver of the correspondence check), its function index is its position in that
+   submodule's function list, and it has that function's cards *)
+Theorem C15_ir_stream_in_tree :
+  forall (M : module) (limit : N) (fs : list function_ir),
+    into_ir_stream M limit = inr fs ->
+    forall f, In f fs ->
+      exists sub fn, C15Check.module_at (C15Check.with_std M) (fi_ns f) = Some sub /\
+                     nth_error (m_functions sub) (fi_index f) = Some (fi_name f, fn) /\ f_cards fn = fi_cards f.
+Proof. exact C15Resolve.ir_stream_in_tree. Qed.
+Print Assumptions C15_ir_stream_in_tree.
+
+(* compile_trace_resolves: for a program B = compile M o below 2^32 bytes there is a list of process_card runs
+   (gruns_real: each one an execution of process_card on a card of a function of the IR stream, which is a function
+   of the tree; byte ranges inside the program) such that every trace entry (a, l) of B satisfies entry_resolves:
+   EITHER a lies in a run; then for the innermost run (f, r) that contains a, l carries the namespace and the
+   function index of f and, looked up in M's tree (namespace -> submodule, then CardEdit.get_card), resolves to
+   r's card - or, for the jumps of While / IfTrue / IfFalse / IfElse (N-C15-4), to its child 1 -, and if the byte
+   at a is the CallFunction opcode (11) then r's card is a Call or DynamicCall card and l resolves to exactly it;
+   OR a lies in no run (a function-level instruction: the epilogues, finding N-C15-3) and then the byte at a is
+   not CallFunction *)
+Theorem C15_compile_trace_resolves :
+  forall (M : module) (o : options) (B : compiled),
+    compile M o = COk B -> (N.of_nat (length (p_bytecode B)) <= Bits.two32)%N ->
+    exists gruns, C15Resolve.gruns_real M o B gruns /\
+      forall a l, In (a, l) (p_trace B) -> C15Resolve.entry_resolves M B gruns a l.
+Proof. exact C15Resolve.compile_trace_resolves. Qed.
+Print Assumptions C15_compile_trace_resolves.
+
+(* what entry_resolves gives for the source address of a call frame: if the byte there is CallFunction, the entry
+   resolves in the tree to a Call / DynamicCall card, under the namespace of that card's function *)
+Theorem C15_call_entry_is_call_card :
+  forall (M : module) (B : compiled) (gruns : list CompilerOwnerProg.grun) (a : N) (l : loc),
+    C15Resolve.entry_resolves M B gruns a l -> C15Resolve.byte_at B a = 11%N ->
+    exists f r, CompilerOwnerProg.gdeepest gruns (f, r) a /\ fst l = fi_ns f /\
+                CompilerOwner.is_call_card (CompilerOwner.r_card r) = true /\
+                C15Resolve.resolves_to M l (CompilerOwner.r_card r).
+Proof. exact C15Resolve.entry_resolves_call. Qed.
+Print Assumptions C15_call_entry_is_call_card.
+
+(* error_trace_resolves: compile M o = COk B (below 2^32 bytes) and a failing run of to_vm B from a state whose
+   frames have admissible sources (the hypotheses of C15_error_trace_shape). Unless the frame of Vm::run itself
+   could not be pushed, the reported trace, read as locations, is
+       [entry(a)] ++ [entry(src f) | f <- call frames of the failing state, innermost first]
+   (existing entries only), a = the address of the instruction that failed in this run (reaches / fails_at), and
+   - trace[0] = entry(a) satisfies entry_resolves: it resolves in M's tree to the card whose compilation emitted
+     the instruction at a (innermost process_card run containing a), with the carve-outs N-C15-4 (jumps of
+     While / If cards: child 1) and N-C15-3 (a in no run: function-level epilogue instruction);
+   - every frame source is 0 (the frame of Vm::run: the program entry), a CallFunction byte, or a label position
+     (the frames of Vm::run_function), its entry satisfies entry_resolves, hence (C15_call_entry_is_call_card) the
+     entry of every frame whose source is a CallFunction resolves to the Call / DynamicCall card that emitted it,
+     under the namespace of that card's function.
+   N-C15-2 is not an exception to this statement but a limit of what it says: an error inside a nested run
+   (Vm::run_function, called by a native) reaches this run as the failure of the CallNative instruction, so a is
+   the address of that CallNative and the frames are those of the outer run
+   (C15_nested_error_keeps_payload_only). *)
+Theorem C15_error_trace_resolves :
+  forall (F : Vm.fops) (bld : Vm.build) (budget : nat) (M : module) (o : options) (B : compiled)
+         (s : Vm.state) (e : Vm.err) (t : list N) (s' : Vm.state),
+    compile M o = COk B -> (N.of_nat (length (p_bytecode B)) <= Bits.two32)%N ->
+    C15Proofs.frames_ok (C15Proofs.src_ok (C15Link.to_vm B)) s ->
+    Vm.run F bld budget (C15Link.to_vm B) s = (Vm.OErr e t, s') ->
+    (t = [] /\ e = Vm.ECallStackOverflow /\ Vm.push_frame s (Vm.mkFrame 0 0 0 None) = None) \/
+    exists gruns a s_fail s_start s0,
+      C15Resolve.gruns_real M o B gruns /\
+      map (C15Link.trace_loc B) t =
+        Vm.opt_list (C15Resolve.entry_at B a ::
+                     map (fun f => C15Resolve.entry_at B (Vm.fr_src f)) (Vm.st_calls s_fail)) /\
+      (forall l, C15Resolve.entry_at B a = Some l -> C15Resolve.entry_resolves M B gruns a l) /\
+      Forall (fun f => (Vm.fr_src f = 0%N \/ C15Resolve.byte_at B (Vm.fr_src f) = 11%N \/
+                        exists label, Vm.assoc label (Vm.p_labels (C15Link.to_vm B)) = Some (Vm.fr_src f)) /\
+                       forall l, C15Resolve.entry_at B (Vm.fr_src f) = Some l ->
+                                 C15Resolve.entry_resolves M B gruns (Vm.fr_src f) l)
+             (Vm.st_calls s_fail) /\
+      Vm.push_frame s (Vm.mkFrame 0 0 0 None) = Some s_start /\
+      C15Proofs.reaches F bld (C15Link.to_vm B)
+        (Vm.run_at F bld (C15Link.to_vm B) false (N.of_nat budget) (pred Vm.max_depth)) 0
+        (Vm.set_rem s_start (N.of_nat budget)) a s0 /\
+      C15Proofs.fails_at F bld (C15Link.to_vm B)
+        (Vm.run_at F bld (C15Link.to_vm B) false (N.of_nat budget) (pred Vm.max_depth)) a s0 e s_fail.
+Proof. exact C15Resolve.error_trace_resolves. Qed.
+Print Assumptions C15_error_trace_resolves.
+
+(* example (vm_compute, any float instance): main -> lib.outer -> lib.deep.boom, which calls a missing native;
+   compile (default options, debug) followed by Vm.run (budget 1000, fresh state) reports
+   ProcedureNotFound with a trace of four entries whose namespaces are lib.deep, lib, root, root and which
+   resolve, in the module tree, to the failing CallNative card, the Call card inside the IfTrue of lib.outer, the
+   Call card of main, and the program entry (first card of main: the frame of Vm::run) *)
+Theorem C15_example_call_chain :
+  forall F : Vm.fops,
+  exists h t,
+    C15Examples.run_loc F C15Examples.chain_module 1000 = Some (Vm.EProcedureNotFound h, t) /\
+    map fst t = [[C15Examples.w_lib; C15Examples.w_deep]; [C15Examples.w_lib]; []; []] /\
+    map (C15Examples.resolve C15Examples.chain_module) t =
+      [Some C15Examples.card_boom; Some C15Examples.card_call_boom; Some C15Examples.card_call_outer;
+       Some (CScalarInt 1)].
+Proof. exact C15Examples.chain_trace_resolves. Qed.
+Print Assumptions C15_example_call_chain.
+
+(* finding N-C15-4 (new, reported): the GotoIfFalse that a While card emits (opcode 30 at address 9 of
+   `while 1 { nil }`) is recorded under sub-index 1, so its location resolves to the loop body, not to the While
+   card; the same holds for the back jump and for the jumps of IfTrue / IfFalse / IfElse (compiler.rs pushes
+   sub-index 1 before encode_if_then). A Timeout that strikes at such a jump names the body / then-branch. *)
+Theorem C15_while_jump_names_body :
+  exists B idx,
+    compile C15Examples.while_module default_options = COk B /\
+    nth 9 (p_bytecode B) 255%N = 30%N /\
+    In (9%N, ([], idx)) (p_trace B) /\
+    CardEdit.get_card C15Examples.while_module idx = CardEdit.ROk CScalarNil.
+Proof. exact C15Examples.while_jump_names_body. Qed.
+Print Assumptions C15_while_jump_names_body.
